@@ -10,13 +10,15 @@
 enum {
 	OP_LOAD, OP_LOADMEM, OP_START, OP_FRAMES, OP_SETPLAYER, OP_INJECT, OP_SETPOS, OP_NEXT, OP_PREV,
 	OP_SEEK, OP_SETROW, OP_MUTE, OP_CHVOL, OP_STOP, OP_RESTART, OP_END, OP_RELEASE, OP_SCAN,
-	OP_TEMPO, OP_PLAYBUF, OP_INSPATH, OP_SMIXPLAY, OP_SETRNG, OP_GETINFO, OP_FMTLIST, OP_TESTMOD, OP_INJECTFX, OP_NKINDS
+	OP_TEMPO, OP_PLAYBUF, OP_INSPATH, OP_SMIXPLAY, OP_SETRNG, OP_GETINFO, OP_FMTLIST, OP_TESTMOD, OP_INJECTFX,
+	OP_SMIXSTART, OP_SMIXEND, OP_SMIXLOAD, OP_SMIXREL, OP_SMIXPLAYSMP, OP_NKINDS
 };
 
 static const char *const c06_opname[OP_NKINDS] = {
 	"load", "loadmem", "start", "frames", "setplayer", "inject", "setpos", "next", "prev",
 	"seek", "setrow", "mute", "chvol", "stop", "restart", "end", "release", "scan",
-	"tempo", "playbuf", "inspath", "smixplay", "setrng", "getinfo", "fmtlist", "testmod", "injectfx"
+	"tempo", "playbuf", "inspath", "smixplay", "setrng", "getinfo", "fmtlist", "testmod", "injectfx",
+	"smixstart", "smixend", "smixload", "smixrel", "smixplaysmp"
 };
 
 struct c06_op {
@@ -113,6 +115,7 @@ static void c06_gen_play_op(struct c06_op *op, int allow_heavy)
 	else if (k < 90) { op->kind = OP_SCAN; }
 	else if (k < 93) { op->kind = OP_TEMPO; op->a = vrng_range(50, 200); }
 	else if (k < 96) { op->kind = OP_PLAYBUF; op->a = vrng_range(1, 6000); op->b = vrng_range(0, 2); }
+	else if (k < 97) { op->kind = OP_SMIXPLAYSMP; op->a = vrng_range(0, 2); op->b = vrng_range(1, 84); op->c = vrng_range(0, 64); op->d = vrng_range(0, 3); }
 	else if (k < 98) { op->kind = OP_SMIXPLAY; op->a = vrng_range(0, 3); op->b = vrng_range(1, 84); op->c = vrng_range(0, 64); op->d = vrng_range(0, 3); }
 	else { op->kind = OP_GETINFO; }
 }
@@ -141,6 +144,11 @@ static void c06_gen_history(struct c06_script *s, int nops, int nmods)
 			}
 		}
 		else if (k < 52) { op->kind = OP_INSPATH; op->a = vrng_range(0, 2); }
+		/* sound-effect mixer sessions: opened, filled, used and closed like any other part of a history */
+		else if (k < 56) { op->kind = OP_SMIXSTART; op->a = vrng_range(0, 4); op->b = vrng_range(0, 3); }
+		else if (k < 59) { op->kind = OP_SMIXEND; }
+		else if (k < 62) { op->kind = OP_SMIXLOAD; op->a = vrng_range(0, 2); }
+		else if (k < 63) { op->kind = OP_SMIXREL; op->a = vrng_range(0, 2); }
 		else c06_gen_play_op(op, 1);
 	}
 }
@@ -242,6 +250,17 @@ static void c06_apply(xmp_context c, const struct c06_op *op, struct c06_mods *m
 	case OP_SMIXPLAY:
 		if (ctx->state >= XMP_STATE_PLAYING)
 			c06_obs_int(o, xmp_smix_play_instrument(c, op->a, op->b, op->c, op->d));
+		break;
+	case OP_SMIXSTART: c06_obs_int(o, xmp_start_smix(c, op->a, op->b)); break;
+	case OP_SMIXEND: xmp_end_smix(c); break;
+	case OP_SMIXLOAD:
+		if (getenv("C06_SMIX_WAV"))
+			c06_obs_int(o, xmp_smix_load_sample(c, op->a, getenv("C06_SMIX_WAV")));
+		break;
+	case OP_SMIXREL: c06_obs_int(o, xmp_smix_release_sample(c, op->a)); break;
+	case OP_SMIXPLAYSMP:
+		if (ctx->state >= XMP_STATE_PLAYING)
+			c06_obs_int(o, xmp_smix_play_sample(c, op->a, op->b, op->c, op->d));
 		break;
 	case OP_SETRNG: libxmp_set_random(&ctx->rng, (unsigned)op->a); break;
 	case OP_GETINFO:
